@@ -170,9 +170,9 @@ def audit_axioms(prop, entry):
                            stderr=subprocess.STDOUT, timeout=1800)
         out = p.stdout.decode(errors="replace")
         found = {}
-        for m in re.finditer(r"'([^']+)' depends on axioms: \[([^\]]*)\]", out, flags=re.S):
+        for m in re.finditer(r"'(\S+)' depends on axioms: \[([^\]]*)\]", out, flags=re.S):
             found[m.group(1)] = {a.strip() for a in m.group(2).replace("\n", " ").split(",") if a.strip()}
-        for m in re.finditer(r"'([^']+)' does not depend on any axioms", out):
+        for m in re.finditer(r"'(\S+)' does not depend on any axioms", out):
             found[m.group(1)] = set()
         for t in thms:
             ax = None
